@@ -6,7 +6,7 @@ EXTENDS Session, Json
 CONSTANT MaxPlugins
 
 PluginLists == UNION {[1..n -> PluginKinds] : n \in 0..MaxPlugins}
-Cfgs == [cert : {"absent", "cn0", "cn1", "cn2"}, eku : {"absent", "other", "lookalike", "client"}, tlsauth : BOOLEAN,
+Cfgs == [cert : {"absent", "cn0", "cn1", "cn2"}, eku : {"absent", "other", "lookalike", "any", "client"}, tlsauth : BOOLEAN,
          plugins : PluginLists, req : {"valid", "undecodable"}]
 
 VARIABLE cfg
